@@ -2202,6 +2202,18 @@ impl<'a> Searcher<'a> {
                         }
                         Op::Eeq => val.eq(&field_value.to_string()),
                         Op::Ene => val.ne(&field_value.to_string()),
+                        // two numbers written as literals (`where -3 <= 24`) are ordered by value
+                        Op::Gt | Op::Gte | Op::Lt | Op::Lte => {
+                            match (field_value.to_string().parse::<f64>(), val.parse::<f64>()) {
+                                (Ok(a), Ok(b)) => match op {
+                                    Op::Gt => a > b,
+                                    Op::Gte => a >= b,
+                                    Op::Lt => a < b,
+                                    _ => a <= b,
+                                },
+                                _ => false,
+                            }
+                        }
                         _ => false,
                     }
                 }
